@@ -348,7 +348,10 @@ class TIMachine(FormatMachine):
         if s is None:
             return "noop"
         vid = str(op["vid"])
-        v = self.mods().Variant(s.obj)
+        owner = s.obj
+        if "owner_slot" in op and self.slots.get(op["owner_slot"]) is not None:
+            owner = self.slots[op["owner_slot"]].obj      # the object was created for ANOTHER tree and is added to this one
+        v = self.mods().Variant(owner)
         v.id, v.uid, v.name, v.type = op["id"], op["uid"], op["name"], op["type"]
         paths = {}
         for k, val in (op.get("paths") or {}).items():
@@ -473,6 +476,17 @@ class TIMachine(FormatMachine):
         return "ok"
 
     # ---- C16 (a)(b): checksums through the disk seam --------------------------------------------
+    def op_fs_symlink(self, op):
+        """a file of the tree is a (relative) symbolic link to a file kept elsewhere in the tree"""
+        import os
+        from .. import simfs
+        link = self.fs.real(op["path"])
+        simfs._o["makedirs"](os.path.dirname(link), exist_ok=True)
+        if os.path.lexists(link):
+            simfs._o["remove"](link)
+        simfs._o["symlink"](op["target"], link)
+        return "ok"
+
     def op_fs_file(self, op):
         """create a file on SimFS: size + content derived from a seed (deterministic)."""
         import random
@@ -717,6 +731,12 @@ class TIMachine(FormatMachine):
             if got != w:
                 raise Violation("C17", "C17.general_mirrors_authoritative_sections", "general.%s-differs" % k,
                                 {"field": k, "got": got, "want": w, "main_variant": mv})
+        # ...and the sections it mirrors say the same IN THE FILE (arch / platforms of [tree], name / version of [release])
+        tr, rl = doc.get("tree") or {}, doc.get("release") or {}
+        for k, sec, opt in (("arch", tr, "arch"), ("platforms", tr, "platforms"), ("family", rl, "name"), ("version", rl, "version")):
+            if sec.get(opt) != g.get(k):
+                raise Violation("C17", "C17.general_mirrors_authoritative_sections", "general.%s-differs-from-file-section" % k,
+                                {"field": k, "general": g.get(k), "section": sec.get(opt)})
         if mv is not None and keys and mv != keys[0]:
             CTX.probe("c17.non_default_main_variant")
         if len(keys) > 1:
